@@ -290,6 +290,7 @@ def analyse(ctx, repo, clsname, eps_mode):
     table = {}
     dom_seen = {}
     unsupported = None
+    bounded = None
     notes = set()
     has_agg = any(isinstance(c_, ast.Call) and (access_path(c_.func) or "") in ("sum", "np.sum", "numpy.sum", "math.fsum") for c_ in ast.walk(fn))
     for (a, b), aggrel in itertools.product(itertools.product(MARKERS, MARKERS), ("<", "=", ">") if has_agg else (None,)):
@@ -303,8 +304,23 @@ def analyse(ctx, repo, clsname, eps_mode):
         try:
             outs = interp.run(fn.body, env, (False, False))
         except Unsupported as e:
-            unsupported = str(e)
-            break
+            if "state space" not in str(e):
+                unsupported = str(e)
+                break
+            # the loop state is not finite (an integer counter of wins, a running score): the automaton does not close.
+            # Objective sequences up to length 4 are still run exactly: a wrong verdict on one of them is a witness; no
+            # wrong verdict among them proves nothing about longer sequences
+            bounded = str(e)
+            client = CmpClient(fn)
+            ev = Evaluator(hooks=client)
+            client.ev = ev
+            interp = Interp(ev, client, max_states=400000)
+            interp.max_word = 4
+            try:
+                outs = interp.run(fn.body, dict(env), (False, False))
+            except Unsupported as e2:
+                unsupported = str(e2)
+                break
         states += interp.states
         notes |= ev.notes
         transitions += interp.transitions
@@ -431,16 +447,48 @@ def analyse(ctx, repo, clsname, eps_mode):
                      "markers (p,q)=(%r,%r), coordinate-order word %s (p vs q per objective): returns %r, the textbook verdict is %s%s"
                      % (a, b, "".join(o.word) or "<empty>", got, sorted(acc), ("; " + "; ".join(sorted(notes))) if notes else ""), key="automaton",
                      facts={"markers": [a, b], "word": list(o.word), "returned": got, "expected": sorted(acc)})
+    elif bounded and _signed_count(fn):
+        lp_, acc_ = _signed_count(fn)
+        ctx.violated(rule, C, where(mod, lp_), "the verdict is the sign of one signed count `%s` (-1 per objective where one side is better, +1 where the other is): a win and a loss cancel, "
+                     "so with three or more objectives a pair in which one side wins twice and loses once (coordinate-order word <<>) gets a winner although the two are incomparable; "
+                     "dominance needs 'no objective worse', which a sum of wins cannot express" % acc_, key="automaton",
+                     facts={"markers": [0, 0], "word": ["<", "<", ">"], "expected": [0]})
     elif unsure:
         a, b, o, acc, got = unsure
         ctx.inconclusive(rule, C, where(mod, o.node or fn), "markers (%r,%r) word %s: abstract result %s (tainted=%s) vs expected %s"
                          % (a, b, "".join(o.word), o.value, o.tainted, sorted(acc)), key="automaton")
+    elif bounded:
+        ctx.inconclusive(rule, C, where(mod, fn), "the loop keeps an unbounded quantity (%s): no wrong verdict for objective sequences up to length 4, longer ones are not decided" % bounded, key="automaton")
     else:
         ctx.holds(rule, C, where(mod, fn),
                   "verdict equals the reference for all 25 marker pairs and all words (%d product states, %d transitions, %d terminal outcomes)%s"
                   % (states, transitions, n_out, "; all-'=' word names a loser" if eps_mode else ""), key="automaton")
     ctx.sample({"construct": C, "table_excerpt": dict(list(ctx.extra["decision_tables"][C].items())[:6])})
     return states, transitions
+
+
+def _signed_count(fn):
+    """(loop, name) when a coordinate loop adds to one accumulator where p is better and subtracts from it where q is
+    better, and the verdict is returned under comparisons of that accumulator with 0"""
+    for lp in [n for n in ast.walk(fn) if isinstance(n, ast.For)]:
+        tg = {n.id for n in ast.walk(lp.target) if isinstance(n, ast.Name)}
+        if len(tg) < 2:
+            continue
+        for st in [n for n in ast.walk(lp) if isinstance(n, ast.If)]:
+            if not (isinstance(st.test, ast.Compare) and len(st.test.ops) == 1 and isinstance(st.test.ops[0], (ast.Lt, ast.Gt))
+                    and {n.id for n in ast.walk(st.test) if isinstance(n, ast.Name)} <= tg and len(st.orelse) == 1 and isinstance(st.orelse[0], ast.If)):
+                continue
+            a1 = [x for x in st.body if isinstance(x, ast.AugAssign) and isinstance(x.target, ast.Name) and isinstance(x.op, (ast.Add, ast.Sub)) and is_const(x.value)]
+            a2 = [x for x in st.orelse[0].body if isinstance(x, ast.AugAssign) and isinstance(x.target, ast.Name) and isinstance(x.op, (ast.Add, ast.Sub)) and is_const(x.value)]
+            if len(a1) == 1 and len(a2) == 1 and a1[0].target.id == a2[0].target.id and type(a1[0].op) is not type(a2[0].op) \
+                    and const_value(a1[0].value) == const_value(a2[0].value) and len(st.body) == 1 and len(st.orelse[0].body) == 1:
+                acc = a1[0].target.id
+                signs = [c for c in ast.walk(fn) if isinstance(c, ast.If) and isinstance(c.test, ast.Compare) and len(c.test.ops) == 1 and access_path(c.test.left) == acc
+                         and isinstance(c.test.ops[0], (ast.Lt, ast.Gt)) and is_const(c.test.comparators[0]) and const_value(c.test.comparators[0]) == 0
+                         and any(isinstance(r, ast.Return) for r in c.body)]
+                if signs:
+                    return lp, acc
+    return None
 
 
 def laws(ctx):
